@@ -489,6 +489,9 @@ fn run_pass(t: &ReteTrace, obs: &mut Obs, primary: bool) -> Result<(), Violation
     }
     if primary {
         obs.nontrivial = total_firings >= 2 && facts.len() >= 2;
+        if facts.iter().any(|f| f.a.abs() >= 1_000_000_000) {
+            obs.count("probe.values_of_magnitude_1e9_or_more");
+        }
         if facts.len() >= 10 {
             obs.count("probe.working_memory_of_ten_or_more_facts");
         }
@@ -542,6 +545,9 @@ impl World for ReteWorld {
         let hash_seed = rng.next_u64();
         let alt_hash_seeds = vec![rng.next_u64(), rng.next_u64()];
         let ntypes = 1 + rng.usize(3) as u8;
+        // magnitude (swarm): the same small spread of values and literals around 0, around an epoch-seconds
+        // stamp, or around 10^12 (still exact as f64) — comparisons that go through floats lose nothing near zero
+        let base: i64 = *rng.pick(&[0i64, 0, 0, 0, 1_700_000_000, 1_000_000_000_000]);
         let simple = rng.chance(1, 2); // no-op actions, all no-loop: fire.complete territory
         let nrules = 1 + rng.usize(4);
         let sal = [0i32, *rng.pick(&[0i32, 5]), *rng.pick(&[-3i32, 10])];
@@ -549,7 +555,7 @@ impl World for ReteWorld {
             .map(|_| {
                 let nconj = 1 + rng.usize(2);
                 let cond = (0..nconj)
-                    .map(|_| (0..1 + rng.usize(2)).map(|_| Atom { field: rng.below(2) as u8, op: rng.below(6) as u8, lit: rng.range(-2, 3) }).collect())
+                    .map(|_| (0..1 + rng.usize(2)).map(|_| Atom { field: rng.below(2) as u8, op: rng.below(6) as u8, lit: (base + rng.range(-2, 3)) }).collect())
                     .collect();
                 RRule {
                     ty: rng.below(ntypes as u64) as u8,
@@ -561,7 +567,7 @@ impl World for ReteWorld {
                     } else {
                         match rng.usize(4) {
                             0 => RAction::Nothing,
-                            1 | 2 => RAction::SetField(rng.below(2) as u8, rng.range(-2, 3)),
+                            1 | 2 => RAction::SetField(rng.below(2) as u8, (base + rng.range(-2, 3))),
                             _ => RAction::Retract,
                         }
                     },
@@ -576,7 +582,7 @@ impl World for ReteWorld {
         let hrange = if many { 36 } else { 6 };
         if many {
             for _ in 0..10 + rng.usize(21) {
-                ops.push(ROp::Insert { ty: rng.below(ntypes as u64) as u8, a: rng.range(-2, 3), b: rng.range(-2, 3) });
+                ops.push(ROp::Insert { ty: rng.below(ntypes as u64) as u8, a: (base + rng.range(-2, 3)), b: (base + rng.range(-2, 3)) });
             }
         }
         for _ in 0..nops {
@@ -584,9 +590,9 @@ impl World for ReteWorld {
             ops.push(match w {
                 0 => {
                     inserted += 1;
-                    ROp::Insert { ty: rng.below(ntypes as u64) as u8, a: rng.range(-2, 3), b: rng.range(-2, 3) }
+                    ROp::Insert { ty: rng.below(ntypes as u64) as u8, a: (base + rng.range(-2, 3)), b: (base + rng.range(-2, 3)) }
                 }
-                1 => ROp::Update { h: rng.usize(hrange), a: rng.range(-2, 3), b: rng.range(-2, 3) },
+                1 => ROp::Update { h: rng.usize(hrange), a: (base + rng.range(-2, 3)), b: (base + rng.range(-2, 3)) },
                 2 => ROp::Retract { h: rng.usize(hrange) },
                 3 => ROp::FireAll,
                 _ => ROp::Reset,
